@@ -206,6 +206,13 @@ private:
                     this->_mask.red.shift   = detail::trailing_zeros( this->_mask.red.mask   );
                     this->_mask.green.shift = detail::trailing_zeros( this->_mask.green.mask );
                     this->_mask.blue.shift  = detail::trailing_zeros( this->_mask.blue.mask  );
+
+                    // see reader::read_data_15
+                    io_error_if(  this->_mask.red.width   == 0 || this->_mask.red.width   > 8
+                               || this->_mask.green.width == 0 || this->_mask.green.width > 8
+                               || this->_mask.blue.width  == 0 || this->_mask.blue.width  > 8
+                               , "bmp scanline_reader: unsupported BMP color masks"
+                               );
                 }
                 else if( this->_info._compression == bmp_compression::_rgb )
                 {
